@@ -7,6 +7,7 @@ import (
 	"os"
 	"reflect"
 	"runtime"
+	"strconv"
 	"strings"
 	"time"
 	"unsafe"
@@ -146,6 +147,15 @@ var invalidClasses = []invalidClass{
 	{"opt:empty", func(r *gen.Rand) (reflect.Type, string) { return reflect.TypeOf(""), tagOf("1,default,string,") }, false},
 }
 
+func init() {
+	for _, id := range []int{0, 1, 31, 32, 63, 64, 65, 127, 128, 255, 256, 1023, 1024, 4095, 4096} {
+		id := id
+		invalidClasses = append(invalidClasses, invalidClass{fmt.Sprintf("id:duplicate-at-%d", id), func(r *gen.Rand) (reflect.Type, string) {
+			return reflect.TypeOf(int32(0)), fmt.Sprintf("DUPEDGE:%d", id)
+		}, false})
+	}
+}
+
 var c13Positions = []string{"top", "nested-ptr", "nested-val", "list-elem", "map-value", "map-key", "depth3"}
 
 // buildInvalid builds a fresh dynamic struct holding the offending field at the
@@ -181,6 +191,12 @@ func buildInvalid(r *gen.Rand, ic *invalidClass, pos string) (bad reflect.Type, 
 	badF := reflect.StructField{Name: schema.UniqueName("Bad"), Type: ft, Tag: reflect.StructTag(tag)}
 	if tag == "DUP" {
 		badF.Tag = reflect.StructTag(tagOf("5,default,i32")) // duplicates the id of Ok
+	}
+	if strings.HasPrefix(tag, "DUPEDGE:") {
+		// two fields share an id at the edges of every plausible id bookkeeping structure
+		id, _ := strconv.Atoi(tag[len("DUPEDGE:"):])
+		fields = append(fields, reflect.StructField{Name: schema.UniqueName("Twin"), Type: reflect.TypeOf(""), Tag: reflect.StructTag(tagOf(fmt.Sprintf("%d,default,string", id)))})
+		badF.Tag = reflect.StructTag(tagOf(fmt.Sprintf("%d,default,i32", id)))
 	}
 	// order of the offending field among the valid ones varies
 	if r.Bool() {
@@ -238,6 +254,10 @@ type rejectObs struct {
 // description of the misbehaviour, or "".
 func checkRejected(entry string, t reflect.Type, byValue bool) (string, string) {
 	v := reflect.New(t)
+	ptrptr := t.Kind() == reflect.Ptr && t.Elem().Kind() == reflect.Struct && !byValue
+	if ptrptr {
+		v.Elem().Set(reflect.New(t.Elem())) // a **T argument pointing at a real T
+	}
 	var arg interface{} = v.Interface()
 	if byValue {
 		arg = v.Elem().Interface()
@@ -263,6 +283,9 @@ func checkRejected(entry string, t reflect.Type, byValue bool) (string, string) 
 			return "", ""
 		}
 		zero := reflect.New(t)
+		if ptrptr {
+			zero.Elem().Set(reflect.New(t.Elem()))
+		}
 		for _, msg := range [][]byte{{0}, {8, 0, 5, 0, 0, 0, 9, 0}, {11, 0, 1, 0, 0, 0, 1, 'x', 10, 0, 5, 0, 0, 0, 0, 0, 0, 0, 3, 0}} {
 			r := fDecode(msg, arg)
 			if r.panicked() {
@@ -380,6 +403,16 @@ func runC13(c *harness.Ctx, idx int) {
 		c.Violation("outer", "C13/outer-"+sig+"/"+ic.name, "a type nesting the invalid definition: %s", msg)
 	}
 	checkSibling("after all calls on")
+	// argument kinds around types with a history: **T of a valid type that has just been used
+	// through pointers, and a typed nil pointer to the rejected definition
+	for _, e := range order {
+		if sig, msg := checkRejected(e, reflect.PtrTo(sibling2.Go), false); sig != "" {
+			c.Violation("ptrptr", "C13/ptr-to-ptr-after-use/"+sig, "**T of a valid, already used struct type: %s", msg)
+		}
+		if sig, msg := checkRejected(e, reflect.PtrTo(bad), true); sig != "" && !ic.lenient {
+			c.Violation("nilptr", "C13/nil-ptr-to-rejected/"+sig+"/"+ic.name, "typed nil pointer to the invalid definition (class %s): %s", ic.name, msg)
+		}
+	}
 	c.Sample(map[string]string{"class": ic.name, "position": pos, "type": bad.String()})
 }
 
@@ -403,6 +436,10 @@ func runC13Sub(c *harness.Ctx, name string) {
 	c.Shape("sub/" + name)
 	c.NonTrivial()
 	outB, errB, err, hung := runSub(name, nil, 10*time.Minute)
+	if hung && subStalled(errB) {
+		c.Violation("no-progress", "C13/sub/"+name+"/child-blocked", "scenario %s blocked (no CPU time consumed for 150 s): %s", name, clipStr(string(errB), 3000))
+		return
+	}
 	if hung {
 		c.Inconclusive("scenario %s exceeded the 10 min wall-clock limit: %s", name, clipStr(string(errB), 1500))
 		return
@@ -536,6 +573,17 @@ func runArgs(entry string, res *subResult) {
 		{"ptr-to-int", &n, false}, {"ptr-to-slice", &sl, false}, {"ptr-to-ptr-struct", pleaf, false},
 		{"nil-interface", nilIface, false}, {"typed-nil-struct-ptr", nilLeaf, true}, {"func", func() {}, false},
 		{"chan", make(chan int), false}, {"struct-value", zoo.Leaf{A: 2}, entry != "decode"},
+		// typed nil pointers to things that are not structs, or to rejected definitions
+		{"nil-ptr-to-int", (*int)(nil), false}, {"nil-ptr-to-ptr-struct", (**zoo.Leaf)(nil), false}, {"nil-ptr-to-slice", (*[]zoo.Leaf)(nil), false},
+		{"nil-ptr-to-map", (*map[string]int32)(nil), false}, {"nil-ptr-to-rejected-struct", (*zoo.Bad)(nil), false}, {"nil-ptr-to-rejected-family", (*zoo.BadTop)(nil), false},
+		// the same pointer-to-pointer after the struct type has been used through pointers
+		{"ptr-to-ptr-struct-after-use", func() interface{} {
+			l := &zoo.Leaf{A: 3}
+			fEncode(make([]byte, 64), l)
+			fDecode([]byte{0}, &zoo.Leaf{})
+			fSize(l)
+			return &l
+		}(), false},
 	}
 	for _, a := range args {
 		res.Steps++
